@@ -539,6 +539,9 @@ class LoopMixin:
             # the function is specified for calls made while an exception is being handled (`handling_exception()` in its requires):
             # an arbitrary exception object is the current one at entry
             st.exc_stack.append(self.sym(st, "handled_exc", "Exc"))
+        # the caller may or may not be handling an exception when it calls the function: sys.exc_info() with no handler of the function's
+        # own active returns either (None, None, None) or an arbitrary exception object that existed at entry (libx: sys.exc_info)
+        self.ambient_exc = self.sym(st, "ambient_exc", "Exc")
         fk = self.func_kind(fn)
         for i, p in enumerate(names):
             hint = c.types.get(p)
